@@ -430,6 +430,8 @@ var mmFields = []mmField{
 
 var mmValues = []struct{ kind, text string }{
 	{"bool", "true"}, {"number", "5"}, {"number", "1.5"}, {"string", `"str"`}, {"object", "{}"}, {"object", `{"iv":1}`},
+	// strings that are well-formed base64 (the empty one; one that decodes to the encoding of a message {1: 42})
+	{"string", `""`}, {"string", `"CCo="`}, {"string", `"AAAA"`},
 	{"array", "[]"}, {"array", "[1]"}, {"array", `["a"]`}, {"array", "[{}]"},
 }
 
